@@ -173,6 +173,12 @@ func SetSymmetricDifference(sets ...cty.Value) (cty.Value, error) {
 func setOperationReturnType(args []cty.Value) (ret cty.Type, err error) {
 	var etys []cty.Type
 	for _, arg := range args {
+		if !arg.Type().IsSetType() {
+			// Only a dynamically-typed argument can get here, because the
+			// parameters are all declared as sets; its element type is not
+			// known yet.
+			return cty.Set(cty.DynamicPseudoType), nil
+		}
 		ty := arg.Type().ElementType()
 
 		// Do not unify types for empty dynamic pseudo typed collections. These
